@@ -42,7 +42,7 @@ package gabi
 //@ pred nonnegD(p) := forall k in dom(p.ADisclosed) :: p.ADisclosed[k] != nil ==> val(p.ADisclosed[k]) >= 0
 
 //@ func (*ProofD).reconstructZ
-//@   property C01 C08
+//@   property C01 C02 C08
 //@   requires p != nil && wfpk(pk) && nonnegD(p)
 //@   ensures checked: err == nil ==> structD(p, pk) && result0 != nil && fresh(result0)
 //@   ensures fail: err != nil ==> result0 == nil
@@ -87,7 +87,7 @@ package gabi
 //@   mustfail canary: !result
 
 //@ func (*ProofU).reconstructUcommit
-//@   property C06 C08
+//@   property C02 C06 C08
 //@   requires p != nil && wfpk(pk)
 //@   ensures checked: err == nil ==> structU(p, pk) && result0 != nil && fresh(result0)
 //@   ensures fail: err != nil ==> result0 == nil
